@@ -334,6 +334,28 @@ theorem cost_ratios_concrete (ys : List Nat) (W : Name → Nat → SimOut Conten
   refine ⟨trivial, trivial, trivial, fun h => ?_⟩
   rw [if_neg h]
 
+/-! ### no history: rows of earlier batches are a frame -/
+
+/-- the rows a summarisation call adds do not depend on the rows already in the summary files, and
+the earlier rows are carried over unchanged -/
+theorem genAll_frame {κ : Type} (S : Stats κ) (clear : Bool) (visit : List (Name × Listings κ)) (st : St κ) :
+    (genAll S clear visit st).ts = st.ts ++ (genAll S clear visit { st with ts := [], emis := [] }).ts ∧
+    (genAll S clear visit st).emis = st.emis ++ (genAll S clear visit { st with ts := [], emis := [] }).emis := by
+  simp [genAll]
+
+/-- whatever later batches do, the rows written by earlier batches stay a prefix of both tables -/
+theorem legacy_rows_preserved {κ : Type} (S : Stats κ) (W : Name → Nat → SimOut κ) (keepAll : Bool) (σ : Sched κ)
+    (cs : List Nat) : ∀ (b : Nat) (st : St κ),
+    st.ts <+: (runBatches S W keepAll σ b cs st).ts ∧ st.emis <+: (runBatches S W keepAll σ b cs st).emis := by
+  induction cs with
+  | nil => intro b st; exact ⟨List.prefix_refl _, List.prefix_refl _⟩
+  | cons c cs ih =>
+    intro b st
+    simp only [runBatches]
+    have h := ih (b + 1) (genAll S (b != 0 && !keepAll) (visitOf σ b (writeBatch W (batchSims b c) st))
+      (writeBatch W (batchSims b c) st))
+    exact ⟨(List.prefix_append _ _).trans h.1, (List.prefix_append _ _).trans h.2⟩
+
 /-! ### batching -/
 
 /-- the batch sizes add up to the number of simulations -/
@@ -363,6 +385,24 @@ theorem batch_sims_eq_range (n : Nat) : allSims 0 (batchSimulations n) = List.ra
   allSims_batchSimulations n
 
 /-! ### yearly share -/
+
+/-- calendar facts behind the day counts: the model's ordinals give every year 365 or 366 days and
+February 28 or 29 (Gregorian rule) -/
+def isLeap (y : Nat) : Bool := (y % 4 == 0 && y % 100 != 0) || y % 400 == 0
+
+theorem year_length (y : Nat) (_hy : 1 ≤ y) :
+    (⟨y + 1, 1, 1⟩ : Date).ord - (⟨y, 1, 1⟩ : Date).ord = if isLeap y then 366 else 365 := by
+  simp only [Date.ord, isLeap]
+  norm_num
+  split <;> omega
+
+theorem feb_length (y : Nat) (_hy : 1 ≤ y) :
+    (⟨y, 3, 1⟩ : Date).ord - (⟨y, 2, 28⟩ : Date).ord = if isLeap y then 2 else 1 := by
+  simp only [Date.ord, isLeap]
+  norm_num
+  split <;> omega
+
+
 
 /-- the yearly shares of a closed record over the years it touches add up to its value (also
 through leap years) -/
